@@ -312,6 +312,7 @@ func (g *GoBackNConn) Close() error {
 
 		// Try send a FIN message to the peer if they have not already
 		// done so.
+		var finDone chan struct{}
 		select {
 		case <-g.remoteClosed:
 		default:
@@ -322,9 +323,27 @@ func (g *GoBackNConn) Close() error {
 			)
 			defer cancel()
 
-			err := g.sendPacket(ctxc, &PacketFIN{}, false)
-			if err != nil {
-				g.log.Errorf("Error sending FIN: %v", err)
+			// We don't rely on sendToStream returning as soon as
+			// the timeout hits: it may be waiting for something
+			// that does not watch the context, such as a lock held
+			// by a send of the sendPacketsForever goroutine that is
+			// still in progress. That send is only released by the
+			// g.cancel() call below, so we must not wait for the
+			// FIN any longer than the timeout before we get there.
+			finDone = make(chan struct{})
+			go func() {
+				defer close(finDone)
+
+				err := g.sendPacket(ctxc, &PacketFIN{}, false)
+				if err != nil {
+					g.log.Errorf("Error sending FIN: %v", err)
+				}
+			}()
+
+			select {
+			case <-finDone:
+			case <-ctxc.Done():
+				g.log.Errorf("Timed out sending FIN")
 			}
 		}
 
@@ -336,6 +355,12 @@ func (g *GoBackNConn) Close() error {
 		g.sendQueue.stop()
 
 		g.wg.Wait()
+
+		// The context of a FIN send that is still in progress has been
+		// canceled by now, so it returns as well.
+		if finDone != nil {
+			<-finDone
+		}
 
 		if g.pingTicker != nil {
 			g.pingTicker.Stop()
